@@ -35,11 +35,23 @@ func c03Types() []c03Ty {
 		{"int->string->bool", "func(int, string) bool", func(k int) string { return fmt.Sprintf("func(i int, s string) bool { return i == %d }", k) }, func(x string) string { return "fmt.Sprint(" + x + fmt.Sprintf("(5, \"\"))") }, func(k int) string { return fmt.Sprint(k == 5) }},
 		{"()->int", "func() int", func(k int) string { return fmt.Sprintf("func() int { return %d }", k) }, func(x string) string { return "fmt.Sprint(" + x + "())" }, func(k int) string { return fmt.Sprint(k) }},
 		{"Base", "Base", func(k int) string { return fmt.Sprintf("Base{Bx: %d, By: %q}", k, fmt.Sprint("b", k)) }, func(x string) string { return "fmt.Sprintf(\"%v %v\", " + x + ".Bx, " + x + ".By)" }, func(k int) string { return fmt.Sprintf("%d b%d", k, k) }},
-		{"string*(int*int)", "frt.Tuple2[string, frt.Tuple2[int, int]]", func(k int) string { return fmt.Sprintf("frt.NewTuple2(%q, frt.NewTuple2(%d, %d))", fmt.Sprint("n", k), k, k+1) }, func(x string) string { return "fmt.Sprintf(\"%v %v %v\", " + x + ".E0, " + x + ".E1.E0, " + x + ".E1.E1)" }, func(k int) string { return fmt.Sprintf("n%d %d %d", k, k, k+1) }},
-		{"(int*string)*bool", "frt.Tuple2[frt.Tuple2[int, string], bool]", func(k int) string { return fmt.Sprintf("frt.NewTuple2(frt.NewTuple2(%d, %q), false)", k, fmt.Sprint("m", k)) }, func(x string) string { return "fmt.Sprintf(\"%v %v %v\", " + x + ".E0.E0, " + x + ".E0.E1, " + x + ".E1)" }, func(k int) string { return fmt.Sprintf("%d m%d false", k, k) }},
+		{"string*(int*int)", "frt.Tuple2[string, frt.Tuple2[int, int]]", func(k int) string {
+			return fmt.Sprintf("frt.NewTuple2(%q, frt.NewTuple2(%d, %d))", fmt.Sprint("n", k), k, k+1)
+		}, func(x string) string {
+			return "fmt.Sprintf(\"%v %v %v\", " + x + ".E0, " + x + ".E1.E0, " + x + ".E1.E1)"
+		}, func(k int) string { return fmt.Sprintf("n%d %d %d", k, k, k+1) }},
+		{"(int*string)*bool", "frt.Tuple2[frt.Tuple2[int, string], bool]", func(k int) string {
+			return fmt.Sprintf("frt.NewTuple2(frt.NewTuple2(%d, %q), false)", k, fmt.Sprint("m", k))
+		}, func(x string) string {
+			return "fmt.Sprintf(\"%v %v %v\", " + x + ".E0.E0, " + x + ".E0.E1, " + x + ".E1)"
+		}, func(k int) string { return fmt.Sprintf("%d m%d false", k, k) }},
 		{"[]int*string", "frt.Tuple2[[]int, string]", func(k int) string { return fmt.Sprintf("frt.NewTuple2([]int{%d}, %q)", k, fmt.Sprint("w", k)) }, func(x string) string { return "fmt.Sprintf(\"%v %v\", " + x + ".E0, " + x + ".E1)" }, func(k int) string { return fmt.Sprintf("[%d] w%d", k, k) }},
 		{"int*[]string", "frt.Tuple2[int, []string]", func(k int) string { return fmt.Sprintf("frt.NewTuple2(%d, []string{%q})", k, fmt.Sprint("x", k)) }, func(x string) string { return "fmt.Sprintf(\"%v %v\", " + x + ".E0, " + x + ".E1)" }, func(k int) string { return fmt.Sprintf("%d [x%d]", k, k) }},
-		{"[](int*string)", "[]frt.Tuple2[int, string]", func(k int) string { return fmt.Sprintf("[]frt.Tuple2[int, string]{frt.NewTuple2(%d, %q)}", k, fmt.Sprint("y", k)) }, func(x string) string { return "fmt.Sprintf(\"%v %v %v\", len(" + x + "), " + x + "[0].E0, " + x + "[0].E1)" }, func(k int) string { return fmt.Sprintf("1 %d y%d", k, k) }},
+		{"[](int*string)", "[]frt.Tuple2[int, string]", func(k int) string {
+			return fmt.Sprintf("[]frt.Tuple2[int, string]{frt.NewTuple2(%d, %q)}", k, fmt.Sprint("y", k))
+		}, func(x string) string {
+			return "fmt.Sprintf(\"%v %v %v\", len(" + x + "), " + x + "[0].E0, " + x + "[0].E1)"
+		}, func(k int) string { return fmt.Sprintf("1 %d y%d", k, k) }},
 		{"(int->int)->int", "func(func(int) int) int", func(k int) string { return fmt.Sprintf("func(g func(int) int) int { return g(%d) }", k) }, func(x string) string { return "fmt.Sprint(" + x + "(func(i int) int { return i * 2 }))" }, func(k int) string { return fmt.Sprint(2 * k) }},
 		{"[]Base", "[]Base", func(k int) string { return fmt.Sprintf("[]Base{{Bx: %d, By: \"z\"}}", k) }, func(x string) string { return "fmt.Sprint(len(" + x + "), " + x + "[0].Bx)" }, func(k int) string { return fmt.Sprintf("1 %d", k) }},
 	}
